@@ -109,6 +109,8 @@ pub struct FmtOut {
     /// operational, parsing, formatting, macro_format_failure, check, diff, unformatted
     pub flags: [bool; 7],
     pub non_formatted: Vec<(usize, usize)>,
+    /// panic message if rendering the report for the terminal (what the binary does) panicked
+    pub render_panic: Option<String>,
 }
 
 impl FmtOut {
@@ -166,6 +168,7 @@ pub fn run_format(text: &str, config: Config) -> FmtOut {
             entries: vec![],
             flags: [false; 7],
             non_formatted: vec![],
+            render_panic: None,
         },
         Ok(Err(e)) => FmtOut {
             status: Status::Err(e.to_string()),
@@ -173,15 +176,29 @@ pub fn run_format(text: &str, config: Config) -> FmtOut {
             entries: vec![],
             flags: [false; 7],
             non_formatted: vec![],
+            render_panic: None,
         },
         Ok(Ok(report)) => {
             let flags = verif_hooks::report_flags(&report);
+            // the binary prints the report through FormatReportFormatter: render it too
+            let render_panic = if report.has_warnings() {
+                let r = panic::catch_unwind(AssertUnwindSafe(|| {
+                    format!("{}", rustfmt_nightly::FormatReportFormatterBuilder::new(&report).build())
+                }));
+                match r {
+                    Ok(_) => None,
+                    Err(_) => Some(last_panic()),
+                }
+            } else {
+                None
+            };
             FmtOut {
                 status: if flags[1] { Status::ParseError } else { Status::Ok },
                 text: String::from_utf8_lossy(&out).into_owned(),
                 entries: verif_hooks::report_entries(&report),
                 flags,
                 non_formatted: verif_hooks::non_formatted_ranges(&report),
+                render_panic,
             }
         }
     }
